@@ -2,7 +2,10 @@
 
 Proof: theories/C11 — character-level mirror of lrlex's LexParser (+ the header slicing of
 `from_str`/`new_with_options`), `unescape_spec`, `trim_end_unescaped_spec`, totality of the mirror,
-`spans_index_source` for the repaired variant and `spans_index_source_refuted` for today's code.
+`spans_index_source` for the repaired variant and `spans_index_source_refuted` for today's code;
+`unescape_iw_spec` (what is special to the regex engine follows ignore_whitespace: an escaped white-space
+character stays escaped, `\\c` or `\\x{..}`) for the variant with the white-space repair, `unescape_iw_refuted` /
+`lex_iw_refuted` for the code without it, `iw_off_irrelevant` (flag off: the repair is invisible).
 Oracle (independent of the mirror): abstract lexer specs are rendered to text in many layouts; the
 implementation must report exactly the abstract rules (order, names, start states, targets, kinds),
 spans that select the names in the text the user wrote, regexes equivalent (regex crate, battery of
@@ -10,6 +13,7 @@ strings) to what the generator meant, and must lex flag-sensitive probes as the 
 Tie: implementation vs extracted mirror, transcript equality (rules, spans, error kinds and spans)
 on generated, mutated and truncated sources.
 """
+import os
 import re
 from vlib import core
 from gen import c11gen as G
@@ -20,13 +24,19 @@ SPANS_FIXED = True      # lexer.rs: spans relative to the whole text (K_SPANS)
 TARGET_FIXED = True     # parser.rs:476 name_span next to a <target> (K_TARGET)
 PREFIX_FIXED = True     # parser.rs:641 unescape also behind a <A,B> prefix (K_PREFIX)
 DANGLING_FIXED = True   # parser.rs:616 trailing copy when the scan ends on a lone backslash (K_DANGLING)
+# parser.rs unescape: under ignore_whitespace the escape before a white-space character is kept (K_IW);
+# notes/C11-iw-escape-fix.diff.  GV_C11_IW_FIXED=1 evaluates the check as it will run once the fix is committed.
+IW_ESCAPE_FIXED = True
+if os.environ.get("GV_C11_IW_FIXED") in ("0", "1"):
+    IW_ESCAPE_FIXED = os.environ["GV_C11_IW_FIXED"] == "1"
 
 K_SPANS = "spans of a lex spec with a %grmtools header are relative to the text after the header"
 K_PREFIX = "lex escapes are not rewritten in a rule that has a start-state prefix"
 K_DANGLING = "unescape drops the end of a regex that ends in a lone backslash"
 K_TARGET = "name_span of a rule with a target state is computed as if the name followed the space directly"
 K_BLANKS = "two blanks between start-state names in a declaration are rejected"
-KNOWN_KEYS = [K_SPANS, K_PREFIX, K_DANGLING, K_TARGET, K_BLANKS]
+K_IW = "with ignore_whitespace on, the backslash before a white-space character is dropped and the regex engine then skips the character"
+KNOWN_KEYS = [K_SPANS, K_PREFIX, K_DANGLING, K_TARGET, K_BLANKS, K_IW]
 
 
 def hx(s):
@@ -87,7 +97,7 @@ def bsel(src_b, s, e):
 
 
 def battery(rng, exp):
-    alpha = list("abcxyz019AZ<>\"',;%!=@_/:` \t\n\x08-+.") + G.MULTI + ["q", "h", "g", "k", "5", "B"]
+    alpha = list("abcxyz019AZ<>\"',;%!=@_/:` \t\n\x08-+.#") + G.MULTI + ["q", "h", "g", "k", "5", "B"] + G.RX_WS_COMMON[2:]
     b = set([""])
     for _ in range(40):
         b.add("".join(rng.choice(alpha) for _ in range(rng.randint(1, 4))))
@@ -101,12 +111,41 @@ def battery(rng, exp):
         b.add(s)
         b.add(s[:-1])
         b.add(s + "a")
+        # ... and the same without its white space: tells `a b` from `ab` (what ignore_whitespace makes of a bare blank)
+        b.add("".join(c for c in s if c not in G.RX_WS_ALL))
     return sorted(b)
 
 
 # ------------------------------------------------------------------ part A: oracle on the implementation
 def fx_string():
-    return "".join("1" if b else "0" for b in (SPANS_FIXED, TARGET_FIXED, PREFIX_FIXED, DANGLING_FIXED))
+    return "".join("1" if b else "0" for b in (SPANS_FIXED, TARGET_FIXED, PREFIX_FIXED, DANGLING_FIXED, IW_ESCAPE_FIXED))
+
+
+def iw_class(rec, rule=None):
+    """is a deviation on this case (on this rule) in the class of the ignore_whitespace finding: the flag is in force
+    and the rule was written with a backslash before a character the regex engine skips in that mode"""
+    if IW_ESCAPE_FIXED or not rec["flags"].get("iw"):
+        return False
+    rules = rec["exp"]["rules"] if rule is None else [rule]
+    return any(r.get("iw_esc", G.has_escaped_ws(r["written"])) for r in rules)
+
+
+def lex_inputs(exp):
+    """inputs whose lexing tells the rules apart: for every rule a string it is meant to match, with and without
+    its white space (only for specifications without start states: the reference lexer does not model them)"""
+    if len(exp["states"]) > 1 or any(r["pre"] or r["target"] for r in exp["rules"]):
+        return None
+    out = []
+    for r in exp["rules"]:
+        s = re.sub(r"\\x\{([0-9A-F]+)\}", lambda m: chr(int(m.group(1), 16)), r["meant"])
+        s = re.sub(r"\\[dDwWsSntafrvbpux]", "5", s)
+        s = re.sub(r"\[\^?(.)[^\]]*\]", lambda m: m.group(1), s)         # a class: its first member
+        s = re.sub(r"\((.)[^)]*\)", lambda m: m.group(1), s)              # a group: its first character
+        s = re.sub(r"[\\()\[\]|?*+^]", "", s)
+        for t in (s, "".join(c for c in s if c not in G.RX_WS_ALL), s + s):
+            if t and "\x00" not in t and t not in out:
+                out.append(t)
+    return out[:8] or None
 
 
 def needs_rewrite(rule):
@@ -129,19 +168,22 @@ def oracle_case(rng, route):
     """one generated abstract spec, rendered; `flags` are the flags in force:
     route "str": from_str, flags written in the %grmtools section;
     route "opt": new_with_options(flags) — a %grmtools section, if any, carries OTHER flags that must be ignored"""
-    flags = G.gen_flags(rng)
+    flags = G.gen_flags(rng, allow_iw=True)
+    if rng.random() < 0.15:
+        flags["iw"] = True
     if route == "str":
         hstyle = None if (not flags and rng.random() < 0.5) else 1
         hflags = flags
     else:
         hstyle = None if rng.random() < 0.5 else 1
-        hflags = {} if rng.random() < 0.5 else G.gen_flags(rng)
+        hflags = {} if rng.random() < 0.5 else G.gen_flags(rng, allow_iw=True)
         hflags.pop("awc", None)
     states, rules = G.gen_spec(rng, flags, prefix_escapes=rng.random() < 0.4)
     text, exp = G.render(rng, states, rules, hflags if hstyle else {}, hstyle, comments=flags.get("awc", False) and rng.random() < 0.7)
     bat = battery(rng, exp)
+    inputs = lex_inputs(exp) if (flags.get("iw") or rng.random() < 0.1) else None
     return {"text": text, "exp": exp, "flags": flags, "route": route, "has_header": hstyle is not None,
-            "line": case_line(text, flags, route, exp, bat)}
+            "line": case_line(text, flags, route, exp, bat, inputs)}
 
 
 def corpus_cases():
@@ -167,6 +209,56 @@ def corpus_cases():
     return out
 
 
+def iw_cases():
+    """escaped white space (and `\\#`) TOGETHER with ignore_whitespace on / off / unspecified, through both routes
+    (%grmtools section, new_with_options with a section that is absent or says the opposite): every character the
+    regex engine skips in that mode and that can stand in a rule line x {plain, in a class, trailing, behind a prefix}"""
+    I = ("INITIAL", False)
+
+    def rule(name, written, meant, pre=(), has_prefix=False):
+        return {"name": name, "pre": list(pre), "target": None, "written": written, "meant": meant,
+                "has_prefix": has_prefix, "iw_esc": G.has_escaped_ws(written)}
+    shapes = []
+    for c in G.RX_WS:
+        L = G.lit(c)
+        tag = "U+%04X" % ord(c)
+        shapes.append(("plain/" + tag, "", [rule("T", "a\\" + c + "b", "a" + L + "b"), rule("U", "ab", "ab")], [I],
+                       ["a" + c + "b", "ab", "a" + c + c + "b"]))
+        shapes.append(("class/" + tag, "", [rule("T", "[\\" + c + "x]+", "[" + L + "x]+"), rule("U", "y", "y")], [I],
+                       [c + "x" + c, "xx", c, "y" + c]))
+        shapes.append(("trailing/" + tag, "", [rule("T", "a\\" + c, "a" + L), rule("U", "a", "a")], [I],
+                       ["a" + c, "a", "aa" + c]))
+        shapes.append(("prefix/" + tag, "%s A\n", [rule("T", "a\\" + c + "b", "a" + L + "b", pre=[1], has_prefix=True), rule("U", "ab", "ab")],
+                       [I, ("A", False)], None))
+    shapes.append(("hash", "", [rule("T", "a\\#b", "a\\#b"), rule("U", "[\\#x]+", "[\\#x]+"), rule("V", "ab", "ab")], [I],
+                   ["a#b", "ab", "#x#", "a#"]))
+    out = []
+    for tag, decl, rules, states, inputs in shapes:
+        body = decl + "%%\n" + "".join("%s%s '%s'\n" % ("<A>" if r["pre"] else "", r["written"], r["name"]) for r in rules)
+        exp = {"rules": rules, "states": states}
+        bat = sorted(set(["", "a", "ab", "b", "x", "y", "#", "a#b", "xx"] + (inputs or []) +
+                         [t for r in rules for t in [re.sub(r"\\x\{([0-9A-F]+)\}", lambda m: chr(int(m.group(1), 16)), r["meant"])]
+                          if not set(t) & set("[]+\\")]))
+        for val in (True, False, None):
+            flags = {} if val is None else {"iw": val}
+            for route, hdr in (("str", None if val is None else "%grmtools{" + ("" if val else "!") + "ignore_whitespace}\n"),
+                               ("opt", None),
+                               ("opt", None if val is None else "%grmtools{" + ("!" if val else "") + "ignore_whitespace}\n")):
+                if route == "opt" and hdr is None and val is None:
+                    continue
+                text = (hdr or "") + body
+                out.append({"text": text, "exp": exp, "flags": flags, "route": route, "has_header": bool(hdr),
+                            "iwcase": tag, "line": case_line(text, flags, route, exp, bat, inputs)})
+                if inputs:
+                    out[-1]["probe"] = "iw-escape/" + tag          # all routes of one flag setting must lex alike
+    # the witness of C11_lex_iw_refuted / C11_unescape_iw_refuted, as it stands in Spec.v
+    text = "%grmtools{ignore_whitespace}\n%%\na\\ b 'T'\n"
+    exp = {"rules": [rule("T", "a\\ b", "a\\x{20}b")], "states": [I]}
+    out.insert(0, {"text": text, "exp": exp, "flags": {"iw": True}, "route": "str", "has_header": True, "iwcase": "witness",
+                   "line": case_line(text, {"iw": True}, "str", exp, ["a b", "ab", "a", ""], ["a b", "ab"])})
+    return out
+
+
 def judge_oracle(rec, out):
     """compare the implementation's observations with the abstract spec.
     returns the list of deviations (class, known_key, detail); empty = conforms"""
@@ -189,6 +281,8 @@ def judge_oracle(rec, out):
                 return devs
             if prefix_rw and len(errs) == 1 and errs[0][0] == "RegexError":
                 key = K_PREFIX
+            elif iw_class(rec) and len(errs) == 1 and errs[0][0] == "RegexError":
+                key = K_IW          # e.g. `[\ ]` rewritten to `[ ]`: an empty, hence unclosed, class in that mode
         devs.append(("valid specification rejected", key, what))
         return devs
     rules, states = parse_ok(sec["OK"])
@@ -228,6 +322,8 @@ def judge_oracle(rec, out):
         k = int(f[0])
         er = exp["rules"][k] if k < len(exp["rules"]) else None
         key = K_PREFIX if (er and er["has_prefix"] and needs_rewrite(er) and not PREFIX_FIXED) else None
+        if key is None and er and iw_class(rec, er):
+            key = K_IW
         if f[1] == "WRITTENERR":
             rec["generator_invalid"] = True       # the generator produced a regex the regex crate rejects: no verdict
         elif f[1] == "IMPLERR":
@@ -240,7 +336,7 @@ def judge_oracle(rec, out):
                           "impl_match_end": f[4] if len(f) > 4 else None, "written_match_end": f[5] if len(f) > 5 else None}))
     # flags in force: lexing vs the reference lexer
     if "LX" in sec and "RL" in sec and sec["LX"][3:] != sec["RL"][3:]:
-        key = K_PREFIX if prefix_rw else None
+        key = K_PREFIX if prefix_rw else (K_IW if iw_class(rec) else None)
         devs.append(("lexing differs from the reference lexer under the flags in force", key, {"impl": sec["LX"], "reference": sec["RL"]}))
     return devs
 
@@ -318,16 +414,16 @@ def mirror_line(text, out, opt_flags):
         return None
     if opt_flags is None:
         fl = dict(x.split(":") for x in h[2].split(",")) if h[2] != "-" else {}
-        awc, pe = fl.get("awc", "0"), fl.get("pe", "0")
+        awc, pe, iw = fl.get("awc", "0"), fl.get("pe", "0"), fl.get("iw", "0")
     else:
-        awc, pe = ("1" if opt_flags.get("awc") else "0"), ("1" if opt_flags.get("pe") else "0")
+        awc, pe, iw = ("1" if opt_flags.get("awc") else "0"), ("1" if opt_flags.get("pe") else "0"), ("1" if opt_flags.get("iw") else "0")
     bad = "-"
     if "ERRS" in sec:
         es = parse_errs(sec["ERRS"])
         if es and es[-1][0] == "RegexError":
             off = es[-1][1][0][0]
             bad = str(off)
-    return "src=%s pos=%s awc=%s pe=%s bad=%s fx=%s" % (hx(text), h[1], awc, pe, bad, fx_string())
+    return "src=%s pos=%s awc=%s pe=%s iw=%s bad=%s fx=%s" % (hx(text), h[1], awc, pe, iw, bad, fx_string())
 
 
 # a specification parser answers in milliseconds: a case still running after 4 s is a hang
@@ -348,6 +444,7 @@ def run(ctx):
         recs.append(oracle_case(rng, "str" if i % 3 else "opt"))
     probes = flag_probe_cases()
     recs += probes
+    recs += iw_cases()
     outs = core.run_lines([exe], [r["line"] for r in recs], env=FAST_WATCHDOG, max_bad=12)
     nconf = ninvalid = 0
     for rec, out in zip(recs, outs):
@@ -471,7 +568,13 @@ def run(ctx):
         "<S>/<+S>/<-S> targets, regex atoms: literals, multi-byte chars, lex escapes of non-special chars incl. multi-byte and space, regex "
         "escapes, \\b, classes, bare and trailing-escaped spaces) x renderings (with/without %grmtools section with random flags, "
         "'n'/\"n\"/;/''/\"\" forms, blanks/tabs, LF/CRLF/VT/CR/U+2028 separators, // comments when allowed, closing %%) x route "
-        "(from_str / new_with_options with a contradicting section); judged against the abstract spec (rules, states, span texts, "
+        "(from_str / new_with_options with a contradicting section); ignore_whitespace drawn like the other flags (and forced "
+        "on in 15% of the cases) TOGETHER with escaped white space / \\# atoms (plain, in classes [\\ x] [^\\ ] [x\\ \\#], in groups, "
+        "trailing; every character the regex engine skips in that mode that can stand in a rule line), such cases also lexed "
+        "(inputs: what each rule is meant to match, with and without its white space) against the reference lexer; a "
+        "deterministic family iw_cases: 20 skipped characters x {plain, class, trailing, behind a <A> prefix} + \\# x "
+        "ignore_whitespace {on, off, unspecified} x {section, new_with_options, new_with_options with a contradicting section}; "
+        "judged against the abstract spec (rules, states, span texts, "
         "regex equivalence on a battery of ~90 strings per case, flag probes lexed against a reference lexer). "
         "B: the same texts plus 3 mutations each (char delete/insert/replace, truncation, duplicated/swapped/indented lines, "
         "routine sections) and every truncation of some, implementation vs extracted mirror transcript equality. "
